@@ -46,6 +46,8 @@ func TestCheck(t *testing.T) {
 			channelCase(rep, rng)
 		case idx%10 == 8:
 			orphanCase(ctx, rep, rng, cfg)
+		case idx%10 == 3 || idx%10 == 6:
+			edgeBranchCase(ctx, rep, rng, cfg, idx == 3)
 		default:
 			mode := gspec.DAG
 			if rng.Bool() {
